@@ -248,7 +248,10 @@ func (rm *RequestManager) releaseRequestTask(p peer.ID, task *peertask.Task, err
 	if !ok {
 		return
 	}
-	if _, ok := err.(hooks.ErrPaused); ok {
+	// a request that was cancelled (by the caller, a failure status or a hook error) while it
+	// was running is waiting for this release to be terminated: it must not be parked as
+	// paused, or nothing would ever terminate it and its channels would never close
+	if _, ok := err.(hooks.ErrPaused); ok && ipr.ctx.Err() == nil {
 		ipr.state = graphsync.Paused
 		return
 	}
